@@ -633,6 +633,15 @@ def run(scenario, world):
             if is_exc(r):
                 raise Violation('op.fix', 'raises', '%s fix(%s) raised %r\n%s'
                                 % (s.kind, d, r, r.tb), step)
+            if s.kind == 'controller':
+                # documented: fixing parameters resets the log-prior (a prior
+                # set for the previous free parameters must not survive)
+                lp_ = call(s.obj.get_log_prior)
+                if is_exc(lp_) or lp_ is not None:
+                    raise Violation(
+                        'fix.resets_prior', 'prior_kept',
+                        'controller.fix_parameters(%s) left the log-prior %s '
+                        'in place' % (d, short(lp_)), step)
             if ref and not new:
                 world.probe('release_collapsed_mask_to_none')
             if any(i in ref and v is not None and ref[i] != float(v)
